@@ -56,6 +56,29 @@ func runReplay(path string) int {
 	}
 	scratch, _ := os.MkdirTemp("", "verif-replay-")
 	defer os.RemoveAll(scratch)
+	if rf.Explore != nil {
+		kf := loadKnown()
+		var knownSigs []string
+		for _, f := range kf.Findings {
+			if f.Property == rf.Property && f.Signature != rf.Signature {
+				knownSigs = append(knownSigs, f.Signature)
+			}
+		}
+		ej := &job{world: bw, mode: rf.Explore.Mode, checks: rf.Explore.Checks, rseed: rf.Explore.RapidSeed, out: filepath.Join(scratch, "eres.json")}
+		runJob(b, rf.Property, ej, knownSigs, pc.extraEnv(b), 20*time.Minute)
+		if ej.err != "" {
+			return fail2("runner: %s", ej.err)
+		}
+		for _, v := range ej.res.Violations {
+			if v.Signature == rf.Signature {
+				fmt.Printf("class=%s signature=%s\n%s\n(exploration replay: rapid seed %d, %d checks)\n", v.Class, v.Signature, v.Detail, rf.Explore.RapidSeed, rf.Explore.Checks)
+				fmt.Printf("VIOLATION property=%s replay=%s\n", rf.Property, path)
+				return 1
+			}
+		}
+		fmt.Println("replay clean: the seeded exploration no longer reports this violation")
+		return 0
+	}
 	pf := filepath.Join(scratch, "plan.json")
 	_ = os.WriteFile(pf, fixPlanWorld(rf.Plan, w.Name), 0o644)
 	j := &job{world: bw, mode: planMode(rf.Plan), plan: pf, out: filepath.Join(scratch, "res.json")}
